@@ -305,3 +305,12 @@ Proof.
   - split; [cbn [length]; rewrite IH1; reflexivity|]. cbn [rev]. rewrite nth_error_app2 by (rewrite rev_length; lia).
     rewrite rev_length, IH1, Nat.sub_diag. reflexivity.
 Qed.
+
+(* unbounded horizon: the last row has no infected node *)
+Lemma accepted_unbounded_ends_without_infection : forall sir os g tmin l, dwf_rowsb sir os g tmin None l = true ->
+  exists l1 z, l = l1 ++ [z] /\ cntz (snd z) 1 = 0%Z.
+Proof.
+  intros sir os g tmin l H. destruct (dwf_rowsb_sound _ _ _ _ _ _ H) as [_ [_ [l1 [z [E [Hz|Hz]]]]]].
+  - exists l1, z. split; assumption.
+  - discriminate Hz.
+Qed.
